@@ -44,7 +44,7 @@ ConsistentWithDynamic(op, n, m, k) ==
     op \in DOMAIN DynamicTwin => (Accept(op, n, m, k) <=> Defined(DynamicTwin[op], <<n>>, k))
 
 Traits == {"Send", "Sync", "Clone", "Copy"}
-Elems == {"u8", "string", "rc", "cell", "rawptr", "noclone"}
+Elems == {"u8", "string", "rc", "cell", "rawptr", "noclone", "mutexguard"}
 Has(tr, e) ==
     CASE e = "u8" -> TRUE
       [] e = "string" -> tr \in {"Send", "Sync", "Clone"}
@@ -52,6 +52,7 @@ Has(tr, e) ==
       [] e = "cell" -> tr \in {"Send", "Clone"}
       [] e = "rawptr" -> tr \in {"Clone", "Copy"}
       [] e = "noclone" -> tr \in {"Send", "Sync"}
+      [] e = "mutexguard" -> tr = "Sync"                   \* Sync but not Send
 Containers == {"array", "iter"}
 HasContainer(tr, c, e) == Has(tr, e) /\ ~(c = "iter" /\ tr = "Copy")
 
